@@ -436,8 +436,16 @@ def evaluate(mod, specs, stats, collect_samples=3):
             # operation programs: arguments with equal values built at the same adapter call site are one object, as for
             # a caller that passes its `look` vector to two steps (pwlib/share.py, single phase: nothing is overwritten)
             from . import share
-            with share.scope(_adapter_modules(mod), getattr(mod, "SHARE_VALUE_CLASSES", share.VALUE_CLASSES)):
-                impl_res.append(canon.call(c.impl))
+
+            def guarded(c=c):
+                try:
+                    with share.scope(_adapter_modules(mod), getattr(mod, "SHARE_VALUE_CLASSES", share.VALUE_CLASSES)):
+                        return c.impl()
+                except Exception as e:
+                    if share.adapter_write(e):      # the adapter edits an array it built: run this case unpooled
+                        return c.impl()
+                    raise
+            impl_res.append(canon.call(guarded))
         else:
             impl_res.append(canon.call(c.impl))
     # model runs
@@ -501,7 +509,13 @@ def run_check(mod, tier, seed, replay=None):
     n_obl = len(obligations)
     n_ok = sum(1 for o in obligations if o["ok"])
     lc = lean.get("leanchecker")
-    proof_broken = (not lean["build_ok"]) or n_ok != n_obl or bool(lean["forbidden"]) or (lc is not None and not lc["ok"])
+    # a translator fragment that raised has not regenerated its files: whatever they still say is stale, so every tie to the
+    # source counts as broken (the fragments are written not to raise; this is the backstop)
+    crashed = sorted(n for n, v in (lean.get("gen") or {}).items() if v.get("notes") == "crashed" or n.startswith("Broken_"))
+    if crashed:
+        lean["failing"] = list(lean.get("failing") or []) + ["translator fragment crashed: " + n for n in crashed]
+    proof_broken = (not lean["build_ok"]) or n_ok != n_obl or bool(lean["forbidden"]) or (lc is not None and not lc["ok"]) \
+        or bool(crashed)
     print("[%s] lean build_ok=%s obligations=%d discharged=%d forbidden=%d (%.1fs)" % (
         prop, lean["build_ok"], n_obl, n_ok, len(lean["forbidden"]), lean["wall"]), flush=True)
     if not lean.get("driver_ok", False):
